@@ -167,8 +167,14 @@ func (c *Check) finish() {
 		counts[o.Rule]++
 	}
 	for _, r := range sortedKeys(c.minInst) {
-		if counts[r] < c.minInst[r] {
-			c.Unk(r, "anchor-count", "", "", fmt.Sprintf("anchor lost: rule produced %d instances, %d were confirmed by hand on the pinned tree", counts[r], c.minInst[r]))
+		// the floor guards against a rule that silently matches (almost) nothing; it is not an
+		// exact count: helpers may merge call sites, so larger counts get a margin
+		floor := c.minInst[r]
+		if floor > 3 {
+			floor = (floor*7 + 9) / 10
+		}
+		if counts[r] < floor {
+			c.Unk(r, "anchor-count", "", "", fmt.Sprintf("anchor lost: rule produced %d instances, %d were confirmed by hand on the pinned tree (floor %d)", counts[r], c.minInst[r], floor))
 		}
 	}
 }
